@@ -65,8 +65,8 @@ def firstOcc [DecidableEq α] : List α → List α
 
 /-! ### §18.5 Group / Aggregation / AggregateJoin -/
 
-/-- ListEval of the GROUP BY variables: the key of a solution -/
-def keyOf (keys : List Nat) (r : Row) : Key := keys.map r.get
+/-- ListEval of the GROUP BY expressions: the key of a solution (an error is no value) -/
+def keyOf (keys : List Expr) (r : Row) : Key := keys.map (fun e => evalE e r)
 
 /-- one accumulator fed with the solutions of a group, in order -/
 def accRun (a : AggSpec) (rows : List Row) : AccSt := rows.foldl (fun st r => st.update a r) (initAcc a)
@@ -120,6 +120,7 @@ def evalG (keep : List Nat) (rows : List Row) (g : Row) : Expr → Val
   | .add a b => arith true (evalG keep rows g a) (evalG keep rows g b)
   | .sub a b => arith false (evalG keep rows g a) (evalG keep rows g b)
   | .cmp op a b => cmpE op (evalG keep rows g a) (evalG keep rows g b)
+  | .and a b => andE (evalG keep rows g a) (evalG keep rows g b)
   | .agg k d s arg sep => aggValue ⟨k, d, s, arg, sep, 0⟩ rows
 
 /-- two lists of the same length, related position by position -/
